@@ -67,7 +67,7 @@ def run_single(prop, seed, preset, want_case, schema_knobs=None, doc_knobs=None,
         if faults:
             base_plan = plan
             t2 = Tape(seed, preset)
-            plan = make_plan(case, t2, faults, knobs=plan_knobs)
+            plan = make_plan(case, t2, faults, knobs=plan_knobs, base=base_plan)
             plan.base = base_plan
             for k, v in t2.used.items():
                 if k.startswith("data") and len(v) > len(tape.used.get(k, ())):
